@@ -779,7 +779,7 @@ class VizierServicer(vizier_service_pb2_grpc.VizierServiceServicer):
         early_stopping_decisions_proto = temp_pythia_service.EarlyStop(
             early_stop_request_proto
         )
-      except Exception:  # pylint: disable=broad-except
+      except Exception as e:  # pylint: disable=broad-except
         # Do not leave the operation ACTIVE forever (later checks would be
         # answered from it without ever reaching Pythia again).
         output_operation.status = (
@@ -787,7 +787,9 @@ class VizierServicer(vizier_service_pb2_grpc.VizierServiceServicer):
         )
         output_operation.completion_time.CopyFrom(_get_current_time())
         self.datastore.update_early_stopping_operation(output_operation)
-        raise
+        # Report the failure as an RPC error, so that a local client and a
+        # remote client observe the same error class.
+        grpc_util.handle_exception(e, context)
       early_stopping_decisions = svz.EarlyStopConverter.from_decisions_proto(
           early_stopping_decisions_proto
       )
